@@ -132,7 +132,9 @@ impl Gen {
         let h = x * (1.0 + 0.02 * a);
         let l = x * (1.0 - 0.02 * b);
         let c = l + (h - l) * cpos;
-        let b = RawBar { o: x.clamp(l, h), h, l, c: c.clamp(l, h), v: (1.0 + 9999.0 * vu * vu).round() };
+        // about one bar in 250 is untraded (volume exactly 0) although its price moved
+        let vol = if vu < 0.004 && self.regime != 4 { 0.0 } else { (1.0 + 9999.0 * vu * vu).round() };
+        let b = RawBar { o: x.clamp(l, h), h, l, c: c.clamp(l, h), v: vol };
         self.last_bar = Some((x, b));
         b
     }
@@ -162,11 +164,16 @@ pub fn check_as(c: &Case, ctx: &mut Ctx, id: &str, pow2: bool) -> Result<(), Fai
 
 /// `sign_only`: check only the every-step invariant (variance / dispersion never negative or NaN)
 pub fn check_mode(c: &Case, ctx: &mut Ctx, id: &str, pow2: bool, sign_only: bool) -> Result<(), Failure> {
+    check_full(c, ctx, id, pow2, sign_only, false)
+}
+
+/// `via_default`: the instance comes from Default::default() (c.n must be the documented default period)
+pub fn check_full(c: &Case, ctx: &mut Ctx, id: &str, pow2: bool, sign_only: bool, via_default: bool) -> Result<(), Failure> {
     let k = c.kind;
     let name = k.name();
     let n = c.n;
     let cfg = Cfg { kind: k, p: vec![n], m: X(2.0) };
-    let mut ind = Ind::build(k, &cfg.params()).map_err(|_| Failure { signature: "C13:harness".into(), detail: "HARNESS build".into() })?;
+    let mut ind = if via_default { Ind::default_of(k) } else { Ind::build(k, &cfg.params()).map_err(|_| Failure { signature: "C13:harness".into(), detail: "HARNESS build".into() })? };
     let mut gen = Gen::new(c.seed, c.regime, c.base.0, c.saw);
     let mut pick = c.seed.wrapping_mul(0x9E3779B97F4A7C15) | 1;
     let bars_kind = matches!(k, Kind::Cci | Kind::Mfi);
@@ -421,6 +428,19 @@ pub fn run(g: &mut Global) {
             Case { kind, n, regime, base: X(base), seed: sd, len: l, saw: n + 1 + (sd % (2 * n as u64 + 1)) as usize }
         },
         &check,
+    );
+    // Default-built instances (documented default periods) on long streams
+    g.exhaustive(
+        "defaults",
+        9 * 5,
+        &move |i| {
+            let kind = KINDS[(i % 9) as usize];
+            let regime = (i / 9) as usize % 5;
+            let mut s = seed ^ (i + 77).wrapping_mul(0xE7037ED1A0B428DB);
+            let n = kind.default_params().p[0];
+            Case { kind, n, regime, base: X(1.0), seed: splitmix(&mut s), len: 30_000, saw: 2 + (i as usize % (n + 2)) }
+        },
+        &|c: &Case, ctx: &mut Ctx| check_full(c, ctx, "C13", true, false, true),
     );
     let ml = g.tier.pick(60_000usize, 400_000usize);
     g.random("random", g.tier.pick(480, 4000), &move || strategy(ml), &check);
